@@ -112,6 +112,7 @@ func runC30(c *Ctx) {
 	flood := false
 	c.Bubble(func() {
 		s := simrt.New(c.T)
+		s.EnableHB()
 		s.KeepTrace = c.Knobs["trace"] != ""
 		lookups := 0
 		ev := eval.NewEvaler()
@@ -204,6 +205,9 @@ func runC30(c *Ctx) {
 			v.Detail = "the editing session ended but highlighter goroutines never finish (late results nobody can receive): " + v.Detail
 		}
 		c.FinishSim(s, v)
+		if v == nil {
+			c.ReportRaces(s)
+		}
 		if lateSeen > 0 {
 			c.Probe("late-result-delivered")
 		}
